@@ -335,7 +335,38 @@ def correspond(tier):
             if not _close(want, got, abs(got)):
                 c.disagree(input=line, impl=want, model=got, kind=kind, what=["adapt"])
         out.append(c)
+    out.append(_mode_stats_consistency(tier))
     return out
+
+
+def _mode_stats_consistency(tier):
+    """the theorems ASSUME the precomputed quantities the kernels use are consistent with the covariance: the factor the
+    proposal multiplies the normal vector with satisfies L L^T = Sigma (and is the lower factor the code's `chol_cov @ randn`
+    expects), and inv_cov = Sigma^-1.  Checked here on the real ModeStatistics for correlated matrices."""
+    from tempest.modes import ModeStatistics
+    c = Corr("mode-stats-consistency", "toleranced (1e-9 relative): L L^T = Sigma, L lower-triangular, inv_cov Sigma = I")
+    rng = common.rng_for("C03.modestats")
+    for _ in range(120 if tier == "quick" else 1500):
+        d = rng.randint(1, 5)
+        K = rng.randint(1, 3)
+        covs = np.array([_spd(rng, d, rng.uniform(0.05, 0.5)) for _ in range(K)])
+        ms = ModeStatistics(np.zeros((K, d)), covs, np.full(K, 3.0))
+        c.case([common.f2hex(v) for v in covs.ravel()[:6]], d >= 2)
+        for k in range(K):
+            L, S, Si = ms.chol_covariances[k], covs[k], ms.inv_covariances[k]
+            sc = float(np.abs(S).max())
+            bad = None
+            if np.abs(L @ L.T - S).max() > 1e-9 * sc:
+                bad = "chol_cov @ chol_cov.T != covariance (the proposal noise chol_cov @ z does not have covariance Sigma)"
+            elif np.abs(np.triu(L, 1)).max() > 0:
+                bad = "chol_cov is not lower-triangular"
+            elif np.abs(Si @ S - np.eye(d)).max() > 1e-8:
+                bad = "inv_cov @ covariance != I"
+            if bad:
+                c.disagree(input={"cov": S.tolist()}, impl=bad, model="L L^T = Sigma, inv_cov = Sigma^-1 (hypotheses of C03_tpcn_interior)", kind="tpcn")
+                break
+    c.sample({"checked": "ModeStatistics(means, covs, dof) for random correlated SPD covs, d in 1..5"})
+    return c
 
 
 # ------------------------------------------------------------------ property oracle on the real code
@@ -478,6 +509,7 @@ def one_step_cell_2d(kernel, boundary, rho, sigma, seed, n=200000, bins=5):
 
 CELLS_2D = [
     # (kernel, boundary, rho, sigma, known_id)
+    ("tpcn", "hard", 0.9, 0.5, None),                                 # proved: C03_tpcn_hard_reject (needs L L^T = Sigma)
     ("rwm", "periodic", 0.9, 0.5, None),                              # proved: fold_periodic_symmetric_nd
     ("rwm", "reflective", 0.0, 0.5, None),                            # proved: fold_reflective_symmetric_nd (diagonal Sigma)
     ("rwm", "reflective", 0.9, 0.5, "F21_reflective_correlated"),     # counter-example C03_reflect_correlated_asymmetric
